@@ -145,18 +145,23 @@ func checkC19(c *Ctx, w *World) {
 			app, isA := stripConv(vr.Vals[0]).(*ssa.Call)
 			good := isA && calleeOf(&app.Call).Builtin == "append"
 			if good {
-				by, isB := staticCallNamed(stripConv(oneOrigin(app.Call.Args[0])), "proto.(*Buffer).Bytes")
-				// both encode steps ran before the prefix bytes are taken, on this way out
+				// the destination of the append, on this way out: the prefix buffer's bytes, taken after both encode steps ran
 				ranEF, _ := cs.Implies(vr.Cond, and(cs.Reach(ev), cs.Reach(ef)))
-				isBuf := isB
-				if isB {
+				dsts := cs.ResolveUnder(app.Call.Args[0], vr.Cond)
+				isBuf := len(dsts) > 0
+				for _, d := range dsts {
+					by, isB := staticCallNamed(stripConv(oneOrigin(d)), "proto.(*Buffer).Bytes")
+					if !isB || !mayPrecede(ef, by) || mayPrecede(by, ef) {
+						isBuf = false
+						continue
+					}
 					for _, rv := range cs.ResolveUnder(by.Call.Args[0], vr.Cond) {
 						if rv != ssa.Value(nb) {
 							isBuf = false
 						}
 					}
 				}
-				good = isBuf && ranEF && mayPrecede(ef, by) && !mayPrecede(by, ef) && payload(app.Call.Args[1])
+				good = isBuf && ranEF && payload(app.Call.Args[1])
 			}
 			c.check(good && knownNil(vr.Vals[1], vr.Cond), "C19.frame", construct+": success", p.ipos(vr.Ret), "returns append(prefix bytes, payload...) — the 6-byte field followed by the unchanged wrapped encoding — with a nil error", "the success result is not prefix‖payload with a nil error")
 		case encFail:
